@@ -90,6 +90,8 @@ func instantiateQuantifiers(asserts []*Term) []*Term {
 		var quants []*Term
 		var bvQuants []*Term
 		bvIdx := map[*Sort][]*Term{}
+		groundApps := map[string][]*Term{}
+		added := 0
 		for _, t := range ord {
 			switch t.Op {
 			case "select":
@@ -129,6 +131,59 @@ func instantiateQuantifiers(asserts []*Term) []*Term {
 				if !t.hasB {
 					bvIdx[t.Args[0].S] = append(bvIdx[t.Args[0].S], t.Args[0])
 				}
+			case "app":
+				if !t.hasB {
+					groundApps[t.Name] = append(groundApps[t.Name], t)
+				}
+			}
+		}
+		// quantified facts that apply an uninterpreted function directly to the bound variable, f(a, k, b):
+		// instantiate at every ground application f(a, t, b) with the same other arguments
+		for _, q := range quants {
+			k := q.Bound[0]
+			bo, _ := collect([]*Term{q.Args[0]})
+			for _, p := range bo {
+				if p.Op != "app" {
+					continue
+				}
+				pos := -1
+				okPat := true
+				for i, a := range p.Args {
+					if a == k {
+						if pos >= 0 {
+							okPat = false
+						}
+						pos = i
+					} else if a.hasB {
+						okPat = false
+					}
+				}
+				if !okPat || pos < 0 {
+					continue
+				}
+				for _, g := range groundApps[p.Name] {
+					if len(g.Args) != len(p.Args) {
+						continue
+					}
+					same := true
+					for i := range g.Args {
+						if i != pos && g.Args[i] != p.Args[i] {
+							same = false
+						}
+					}
+					if !same || g.Args[pos].S != k.S {
+						continue
+					}
+					t := g.Args[pos]
+					key := [2]int{q.id, t.id}
+					if seen[key] || total >= 600 {
+						continue
+					}
+					seen[key] = true
+					total++
+					added++
+					out = append(out, Implies(q, Subst(q.Args[0], map[*Term]*Term{k: t})))
+				}
 			}
 		}
 		// quantifiers over a bit-vector used as an index (select A (+ off (bv2nat k))): instantiate at the
@@ -157,7 +212,6 @@ func instantiateQuantifiers(asserts []*Term) []*Term {
 				out = append(out, Implies(q, Subst(q.Args[0], map[*Term]*Term{k: x})))
 			}
 		}
-		added := 0
 		for _, q := range quants {
 			k := q.Bound[0]
 			body := q.Args[0]
